@@ -163,6 +163,10 @@ ChkFont(e) ==
       upm == e.upm
       N   == e.fmN
       D   == e.fmD
+      \* style inputs of the font value agree with each other and with the angle
+      consistent == /\ e.st.i_italic = (e.f.asign # 0)
+                    /\ e.st.i_regular => (~e.st.i_bold /\ ~e.st.i_italic /\ ~e.st.i_oblique)
+      intw == \A i \in 1..e.n : e.wq[i] % 20 = 0          \* integer advance widths
       wj  == e.fm_known /\ e.fmN[2] * e.fmN[3] = 0 /\ (e.fkind = "ttf" => e.fmN[1] * e.upm = e.fmD)
       box == e.q_box
       ne  == NonEmptyIdx(box)
@@ -232,31 +236,42 @@ ChkFont(e) ==
                         /\ Len(e.codes) > 0 => e.has_cmap,
       \* identical calls give identical files
       write_deterministic |-> e.rewrite_same,
-      \* every fact that is stored twice: all tables of one file tell the same story ...
-      style_italic  |-> LET H == Bit(W(e.head, 22), 1)
-                            S == Bit(W(e.os2, 31), 0)
-                            P == W(e.post, 2) # 0 \/ W(e.post, 3) # 0
-                            C == SW(e.hhea, 10) # 0
-                        IN H = S /\ P = C,                 \* macStyle bit 1 = fsSelection bit 0; post angle <=> slanted caret
-      style_bold    |-> Bit(W(e.head, 22), 0) = Bit(W(e.os2, 31), 5),   \* macStyle bit 0 = fsSelection bit 5
-      style_regular |-> SelWellFormed(W(e.os2, 31)),
-      post_fixedpitch |-> FixedPitchOK(W(e.post, 6) # 0 \/ W(e.post, 7) # 0, [i \in 1..n |-> 20 * d.w[i]]),
-      \* ... and it is the story Read reports
+      \* Style bits across the tables of one file.  The property states that each table's bits survive
+      \* and (with the whole-font round trip) that a written font reads back as itself; it does not say
+      \* how Write resolves CONTRADICTORY style inputs (IsRegular together with IsBold or a slant,
+      \* IsItalic differing from "angle # 0").  So these clauses are judged for consistent inputs only:
+      \* there a file whose tables disagree could not be read back as the font that was written.
+      style_italic  |-> consistent =>
+                          LET H == Bit(W(e.head, 22), 1)
+                              S == Bit(W(e.os2, 31), 0)
+                              P == W(e.post, 2) # 0 \/ W(e.post, 3) # 0
+                              C == SW(e.hhea, 10) # 0
+                          IN H = S /\ P = C,               \* macStyle bit 1 = fsSelection bit 0; post angle <=> slanted caret
+      style_bold    |-> consistent => Bit(W(e.head, 22), 0) = Bit(W(e.os2, 31), 5),   \* macStyle bit 0 = fsSelection bit 5
+      style_regular |-> SelWellFormed(W(e.os2, 31)),       \* OpenType: REGULAR excludes ITALIC and BOLD, whatever the input
+      \* post.isFixedPitch is not a derived field of the property; it is compared with the hmtx of the same
+      \* file only where float and stored widths coincide (integer widths)
+      post_fixedpitch |-> intw => FixedPitchOK(W(e.post, 6) # 0 \/ W(e.post, 7) # 0, [i \in 1..n |-> 20 * d.w[i]]),
+      \* what Read reports about the written file (consistent inputs)
       style_read    |-> e.st.read_ok /\
-                        LET H == Bit(W(e.head, 22), 1)
-                            S == Bit(W(e.os2, 31), 0)
-                            O == Bit(W(e.os2, 31), 9)
-                            P == W(e.post, 2) # 0 \/ W(e.post, 3) # 0
-                            B == Bit(W(e.os2, 31), 5)
-                            R == Bit(W(e.os2, 31), 6)
-                        IN /\ (H \/ S \/ O \/ P) => e.st.r_italic
-                           /\ (~H /\ ~S /\ ~O /\ ~P /\ ~e.st.name_italic) => ~e.st.r_italic
-                           /\ B => e.st.r_bold
-                           /\ (~B /\ ~e.st.name_bold) => ~e.st.r_bold
-                           /\ e.st.r_oblique = O
-                           /\ e.st.r_regular => (R /\ ~e.st.r_italic /\ ~e.st.r_bold)
-                           /\ e.st.r_weight = W(e.os2, 2)
-                           /\ e.st.r_upm = W(e.head, 9),
+                        (consistent =>
+                          LET H == Bit(W(e.head, 22), 1)
+                              S == Bit(W(e.os2, 31), 0)
+                              O == Bit(W(e.os2, 31), 9)
+                              P == W(e.post, 2) # 0 \/ W(e.post, 3) # 0
+                              B == Bit(W(e.os2, 31), 5)
+                              R == Bit(W(e.os2, 31), 6)
+                          IN /\ (H \/ S \/ O \/ P) => e.st.r_italic
+                             /\ (~H /\ ~S /\ ~O /\ ~P /\ ~e.st.name_italic) => ~e.st.r_italic
+                             /\ B => e.st.r_bold
+                             /\ (~B /\ ~e.st.name_bold) => ~e.st.r_bold
+                             /\ e.st.r_oblique = O
+                             /\ e.st.r_regular => (R /\ ~e.st.r_italic /\ ~e.st.r_bold)
+                             /\ e.st.r_weight = W(e.os2, 2)
+                             /\ e.st.r_upm = W(e.head, 9)),
+      \* any input, also a contradictory one: what Read reports is stable under a second write/read cycle
+      style_cycle   |-> \A k \in {"read_ok", "r_italic", "r_oblique", "r_bold", "r_regular", "r_weight", "r_upm"} :
+                          e.prev.st[k] = e.st[k],
       \* scalar header data of the font value inside the file
       file_vmetrics |-> /\ SW(e.hhea, 2) = e.f.asc /\ SW(e.hhea, 3) = e.f.desc /\ SW(e.hhea, 4) = e.f.gap
                         /\ SW(e.os2, 34) = e.f.asc /\ SW(e.os2, 35) = e.f.desc /\ SW(e.os2, 36) = e.f.gap,
@@ -275,7 +290,10 @@ ChkFont(e) ==
                         /\ \A k \in 18..21 : W(p.head, k) = W(e.head, k)
                         /\ \A k \in {1, 32, 33} : W(p.os2, k) = W(e.os2, k)
                         /\ p.maxp = e.maxp
-                        /\ Len(p.post) >= 8 /\ (W(p.post, 6) # 0 \/ W(p.post, 7) # 0) = (W(e.post, 6) # 0 \/ W(e.post, 7) # 0),
+                        \* the fixed-pitch flag only where no precision was lost on the way (integer widths before the cycle)
+                        /\ Len(p.post) >= 8
+                        /\ p.intw =>
+                             (W(p.post, 6) # 0 \/ W(p.post, 7) # 0) = (W(e.post, 6) # 0 \/ W(e.post, 7) # 0),
       glyf_boxes    |-> e.fkind = "ttf" =>
                           \A i \in 1..n : IF e.fileEmpty[i] THEN EmptyBox(box[i]) ELSE e.fileBox[i] = box[i],
       \* second reader of the same file
